@@ -869,9 +869,20 @@ func c07CLI(cfg Config, rep *Report, rng *rand.Rand, monitor func(what, caseLine
 				dst := filepath.Join(work, "out")
 				os.Remove(dst)
 				prior := []byte(nil)
-				if rng.Intn(2) == 0 && cmdName == "extract" {
-					prior = randBytes(rng, 1000)
-					os.WriteFile(dst, prior, 0644)
+				viaLink := false
+				linkTarget := filepath.Join(work, "out-target")
+				os.Remove(linkTarget)
+				if cmdName == "extract" {
+					switch rng.Intn(3) {
+					case 0:
+						prior = randBytes(rng, 1000)
+						os.WriteFile(dst, prior, 0644)
+					case 1: // the destination path is a symbolic link to an existing file
+						prior = randBytes(rng, 1000)
+						os.WriteFile(linkTarget, prior, 0644)
+						os.Symlink(linkTarget, dst)
+						viaLink = true
+					}
 				}
 				cacheDir := filepath.Join(work, "cache")
 				os.RemoveAll(cacheDir)
@@ -893,7 +904,7 @@ func c07CLI(cfg Config, rep *Report, rng *rand.Rand, monitor func(what, caseLine
 				}
 				exit, signalled, stderr := runSignalled(bin, g, sig, args...)
 				g.open()
-				caseLine := fmt.Sprintf("cli.signal cmd=%s n=%s signal=%v at-request=%d chunks=%d", cmdName, n, sig, k, total)
+				caseLine := fmt.Sprintf("cli.signal cmd=%s n=%s signal=%v at-request=%d chunks=%d destination-is-link=%v", cmdName, n, sig, k, total, viaLink)
 				rep.Count(caseLine, signalled, "cli.signal:"+cmdName, fmt.Sprintf("cli-exit0:%v", exit == 0), fmt.Sprintf("cli-signalled:%v", signalled))
 				if exit == -1 {
 					monitor("the command did not exit within a minute after the signal: "+clip(stderr, 200), caseLine)
@@ -904,6 +915,11 @@ func c07CLI(cfg Config, rep *Report, rng *rand.Rand, monitor func(what, caseLine
 					out, rerr := os.ReadFile(dst)
 					if exit == 0 && !bytes.Equal(out, blob) {
 						monitor(fmt.Sprintf("desync extract exited with status 0 after %v but the output (%d bytes) is not the blob (%d bytes)", sig, len(out), len(blob)), caseLine)
+					}
+					if exit != 0 && cmdName == "extract" && viaLink {
+						if tb, _ := os.ReadFile(linkTarget); !bytes.Equal(tb, prior) {
+							monitor("an interrupted extract without --in-place onto a symbolic link changed the file the link points to", caseLine)
+						}
 					}
 					if exit != 0 && cmdName == "extract" {
 						if prior == nil && rerr == nil {
